@@ -349,7 +349,10 @@ ADDENDA.update({
  "C04": "After the review the cache theorems are composed with key faithfulness through observable projections "
         "(make_operator_cache_sound, make_operator_events_sound), the exact-value text of numbers is proved injective on all "
         "dyadics, the heap model carries the compile-time copy of compiled rates, histories share argument objects and use twin "
-        "grids of different classes, and one-sided crashes are failures.",
+        "grids of different classes, and one-sided crashes are failures. After the second seeding round: re-registration of "
+        "operator names (registry machine, registry_cache_sound_by_info / registry_cache_stale_by_name) and per-variable operator "
+        "tables of multi-variable PDEs (pde_operator_table_faithful, witness pde_shared_operator_table_unsound); three known "
+        "entries (caches keyed by operator name survive a re-registration).",
  "C05": "Props/C01Nine.lean adds conservation of the 9-point Laplacian for every n x m incl. the corner points (this found and "
         "pins the repaired periodic-y corner defect). The simulation leg varies solver options, boundary conditions of the "
         "non-conserved operators, multi-field PDEs and both backends. Props/C05b.lean: zero-sum theorems as corollaries of "
@@ -370,7 +373,9 @@ ADDENDA.update({
  "C08": "After the review the monitors judge the literal clauses (floor(T/D)+1 frames on whole ranges, the extra frame at the "
         "final time, exactly-at-it for every tracker of adaptive runs); four narrow known corners of the controller's tolerance "
         "semantics are registered, each recognised from the data of the failing run; the adaptive theorems are _partial "
-        "(single tracker, fixed tolerance).",
+        "(single tracker, fixed tolerance). After the second seeding round: runs start exactly on scheduled times and the literal "
+        "clause is judged for fixed-list, geometric and logarithmic schedules too (served_exactly_once_sequence and its instances); "
+        "this found and pins the repaired skipping of exact lattice hits of geometric schedules.",
  "C09": "After the review: gap j >= d f^(j+1) is proved over whole histories (runLog_gaps), and the geometric schedule is "
         "modelled as the code computes it (log/ceil/pow with the float logarithm as an oracle within tolerance; "
         "geometric_code_schedule, linked to the specification model by geomCode_exact_is_least); constant lattices are checked "
@@ -382,7 +387,11 @@ ADDENDA.update({
  "C11": "Correction: the tolerance is fixed (1e-9) and the conditioning analysis decides which points are compared. After the "
         "review: numba source-semantics routes for every program besides the JIT subset, erf/floor/ceiling in the grammar (erf "
         "against libm checked with mpmath), derivative references from mpmath, signature checking and user functions have "
-        "theorems; refusals of functions outside the grammar are counted, not judged.",
+        "theorems; refusals of functions outside the grammar are counted, not judged. After the second seeding round: "
+        "from_expression routes through the cell-by-cell fallback (values and dtype) and indexing of tensor expressions "
+        "(Model/ExprIndex.lean: index_eval, index_function_eval, dependsOn_sound) on numpy and numba routes; two defects "
+        "repaired in /repo, two known findings (user functions named like functions sympy prints; sympy's rewritten form of a "
+        "formula overflowing to NaN).",
  "C12": "After the review: every leg records its concrete inputs and replays exactly them; per-axis tolerances; axis scales "
         "2^-100..2^100; theorems for cell<->Cartesian round trips, containment in all coordinate systems and period shifts in "
         "grid and cell coordinates.",
@@ -395,7 +404,9 @@ ADDENDA.update({
         "the JSON text of floats are monitored only.",
  "C15": "After the review: `data` is a live view for all histories (DataLive invariant), operators/derived fields are model "
         "operations with freshness theorems, half of the workers use the numba backend on every grid class; known finding: a "
-        "component view taken before its field is handed to FieldCollection(copy_fields=False) is detached.",
+        "component view taken before its field is handed to FieldCollection(copy_fields=False) is detached. After the second "
+        "seeding round: containers the API hands out (fc.fields, fc.labels) and lists passed to the constructor are model objects "
+        "(Model/HandOut.lean; handed_out_list_is_a_copy, no_list_edit_changes_world).",
  "C16": "After the review: the value and conservation theorems hold for the real clipping parameter 0 <= eps <= 1/2 with explicit "
         "error terms (Props/C16Eps.lean), bc-mode interpolation has an independent padded reference incl. corners (ghost layer "
         "NaN-filled before each call), compiled and source runs are compared, complex and integer data are generated (found the "
